@@ -111,6 +111,10 @@ class Element:
         if hasattr(eo, 'elems'):
             for i in range(len(eo.elems)):
                 eo.elems[i].interior_dofs = 0
+        elif hasattr(eo, 'elem'):
+            # the components of the outer part are the outer parts of the
+            # wrapped element
+            eo.elem = self.elem.condensed()[1]
 
         ei = deepcopy(self)
         ei.nodal_dofs = 0
